@@ -47,6 +47,7 @@ class FunctionResult:
         self.covers = []
         self.src = None
         self.gen_time = 0.0
+        self.live = []            # (first line, last line) of the statements (or compound-statement headers) executed on some feasible path
 
 
 def mutate_hook(node):
@@ -69,6 +70,7 @@ def verify_case(c, ci, fn_node=None):
         res.assumptions = sorted(ex.assumptions)
         res.used_contracts = sorted(ex.used_contracts)
         res.paths, res.dead, res.covers = ex.paths, ex.dead, ex.covers
+        res.live = sorted(ex.live_stmts)
     except StaleContract as e:
         res.status, res.detail = "stale", str(e)
     except Unsupported as e:
